@@ -614,6 +614,7 @@ class Interp:
             hook(self.ctx, ordinal)
         for label, props, goal in inv() or []:
             eng.assume(st, eng.z_bool(goal))
+        framed = {k: st.heap.get(k) for k in frame} if frame is not None else {}
         for name in extra_havoc:
             v = st.env.get(name)
             if isinstance(v, VInt) and kw.get("seq") is not None:
@@ -636,6 +637,11 @@ class Interp:
             pass
         for label, props, goal in inv() or []:
             eng.oblige(st, f"loop{ordinal}:{label}:keep", goal, props=props, kind="inv-keep")
+        # a declared loop frame is an obligation, not an assumption: the heap arrays of the framed keys
+        # must be the very same terms after one arbitrary iteration
+        touched = sorted(k for k, a0 in framed.items() if st.heap.get(k) is not a0)
+        if framed:
+            eng.oblige(st, f"loop{ordinal}:frame", z3.BoolVal(not touched), props=tuple(getattr(c, "props", ())), kind="inv-keep", extra={"touched": touched})
         be = getattr(c, "on_back_edge", None)
         if be is not None and self.depth == 0:
             for label, props, goal in be(self.ctx, ordinal) or []:
